@@ -17,6 +17,7 @@ import RedisVerif.Model.Glue
     GC <i> <command, C01 syntax> ;; <dump>   → <reply> | <served keyspace of node i> | sup=<ok|reason> delta=<key rv|none>
     GV <j> <idx> ;; <dump>                   → <merged rv|none> | <served keyspace of node j> | sup=<ok|reason>
     GX <j> <key> <rv> ;; <dump>              → same, for a crafted delta that is not in the history
+    GR <i> <key> <rv> ;; <dump>              → fresh=<b> | <served keyspace of node i> | -      (ApplyRecoveredState)
     GS <i>                                   → <n> (<key> <rv> ;)* | <served keyspace> | served=<b>
     GK <key>                                 → delivered=<b> kind=<K|-> agree=<b> reads=<b>
   `<dump>` after `;;` is the IMPLEMENTATION's served keyspace after the step (C01 dump syntax,
@@ -200,12 +201,23 @@ def gstep (g : GCluster) (line : String) : GCluster × String :=
           s!"{mv} | {C01.showDump nd'.exec 0} | sup={showReason sup}")
       | none => (g, "bad-op")
     | none => (g, "bad-op")
+  | "GR" :: _ =>
+    match runP (do expect "GR"; let j ← nat; let k ← strKey; let v ← rv; expect ";;"; let s ← C01.dump 0; pure (j, k, v, s)) line with
+    | some (j, k, v, impl) =>
+      match g.nodes[j]? with
+      | some nd =>
+        let fresh := (NMap.get nd.rs.keys k).isNone
+        let nd' := nd.recovered k v
+        ({ g with nodes := g.nodes.set j { nd' with exec := impl } },
+          s!"fresh={b01 fresh} | {C01.showDump nd'.exec 0} | -")
+      | none => (g, "bad-op")
+    | none => (g, "bad-op")
   | _ => (g, "bad-op")
 
 def stepAll (d : DState) (line : String) : DState × String :=
   match tokens line with
   | t :: _ =>
-    if t == "GN" || t == "GC" || t == "GV" || t == "GX" || t == "GS" || t == "GK" then
+    if t == "GN" || t == "GC" || t == "GV" || t == "GX" || t == "GR" || t == "GS" || t == "GK" then
       let r := gstep d.g line
       ({ d with g := r.1 }, r.2)
     else
